@@ -50,6 +50,32 @@ func VerifHandle(key []byte, raw []byte, debug bool) (logged string, panicked bo
 	return buf.String(), false
 }
 
+// VerifSession: one BleStruct that handles a whole sequence of advertisements of the device "dev" (whose key may
+// differ from call to call: the handler is given the device configuration with every call).
+type VerifSession struct{ b *BleStruct }
+
+func VerifSessionNew() *VerifSession {
+	ctx, cancel := context.WithCancel(context.Background())
+	return &VerifSession{b: &BleStruct{cfg: verifConfig{}, ctx: ctx, cancel: cancel}}
+}
+
+func (s *VerifSession) Handle(key []byte, raw []byte) (logged string, panicked bool) {
+	var buf bytes.Buffer
+	oldOut, oldFlags := log.Writer(), log.Flags()
+	log.SetOutput(&buf)
+	log.SetFlags(0)
+	defer func() {
+		log.SetOutput(oldOut)
+		log.SetFlags(oldFlags)
+		if r := recover(); r != nil {
+			panicked = true
+			logged = buf.String()
+		}
+	}()
+	s.b.handleNewManufacturerData(verifDevice{name: "dev", key: key}, raw)
+	return buf.String(), false
+}
+
 // VerifMatch returns the index of the configured device matched for a BlueZ address, or -1.
 func VerifMatch(macs [][]byte, addr string) (idx int, panicked bool) {
 	var buf bytes.Buffer
